@@ -67,6 +67,19 @@ check(
     "Only the *superstring* negative generator is relaxed (P15: unanchored alternation); disjoint strings and proper prefixes stay strict.",
 )
 
+check(
+    "C10",
+    "metamorphic search over the environment: Hypothesis-generated inputs x call scripts (orders, repetitions, interleavings, leaking calls first) x PYTHONHASHSEED values, each in a fresh interpreter; digest-equality oracle",
+    "Generated-input search where the varied dimension is the interpreter: for each (api, input) the bytes produced must be identical across all sampled hash seeds, all positions in all call scripts and repetitions. Covers function/class/argparse/json-schema/sqlalchemy parsers and emitters, gen with import inference, infer_imports/optimise_imports, doctrans, openapi emit, get_module_contents.",
+    "Hash seeds and scripts are sampled; key order inside one parameter's dict is not treated as output (parameter order is).",
+)
+check(
+    "C18",
+    "exhaustive enumeration of import histories in fresh interpreters (all modules alone; all ordered pairs in thorough, all cycle-touching pairs + seeded sample in quick); exit-status and bound-names oracle",
+    "Finite domain enumerated: every non-test module is imported first in a fresh interpreter (always complete); ordered pairs are complete in the thorough tier. For each unordered pair the public names bound in both modules are compared between the two orders.",
+    "Trusts that 'public module' = under cdd/ and not under cdd/tests/; import triples and longer histories are not explored.",
+)
+
 NOT_YET = "check not built yet in this round (work in progress; DESIGN.md section 4 has the plan)"
 
 
